@@ -11,7 +11,9 @@
 //! storage-read recording on / off; plus `Executor::dry_run_without_commit_with_source`
 //! of the whole block. Oracle per request: byte-wise dump of every on-chain column
 //! and both relayer columns before == after; the same request again gives the
-//! same answer. Per block: producing the block before and after all its dry runs
+//! same answer - also when, between the two requests, the relayer port reports a
+//! later finalized DA height and/or the relayer has synced a further DA height into
+//! its database (the chain is unchanged by that). Per block: producing the block before and after all its dry runs
 //! gives the same block id, statuses, skipped list and storage changes ("as if
 //! never dry-run"); then the block is committed and the chain goes on.
 //!
@@ -128,7 +130,24 @@ use fuel_core_upgradable_executor::{
     config::Config as ExecConfig,
     executor::Executor,
 };
-use std::sync::Arc;
+use fuel_core_types::{
+    entities::relayer::message::{
+        Message,
+        MessageV1,
+    },
+    fuel_types::{
+        Address,
+        Nonce,
+    },
+    services::relayer::Event as RelayerEvent,
+};
+use std::{
+    collections::BTreeMap,
+    sync::{
+        Arc,
+        Mutex,
+    },
+};
 use vcommon::{
     Args,
     Report,
@@ -152,7 +171,7 @@ use vcommon::{
 pub const RULE: &str = "Leg a: chaingen sessions (every second on RocksDB with full state rewind); per block ~15-25 \
 requests to the real Producer::dry_run (single planned transactions and groups; latest, next and past heights; utxo \
 validation on/off/default; gas price given/default; storage-read recording on/off; time given/default) plus \
-Executor::dry_run_without_commit_with_source of the whole block, every request issued twice; byte-wise dump of all \
+Executor::dry_run_without_commit_with_source of the whole block, every request issued twice, in 70% of the pairs with the relayer's finalized DA height advanced (sometimes after syncing a new DA height with message events) between the two; byte-wise dump of all \
 on-chain and relayer columns before == after each request, both answers equal, and the block produced before and after \
 all dry runs is identical (then committed). Leg b: in-process FuelService on RocksDB, manual blocks; per round, for each \
 generated transaction dry_run / dry_run_opt (utxo validation, gas price, at height) / record_storage_reads / \
@@ -168,7 +187,8 @@ pub fn assumptions() -> Vec<&'static str> {
         "answers are compared as canonical bytes of (transactions, statuses incl. receipts, storage reads) or the error text",
         "assemble_tx and coins_to_spend select coins with randomness: only absence of side effects is judged for them, not equality of answers",
         "a pool rejection is a violation only if it says an input is spent / does not exist for a transaction whose dry run with UTXO validation just succeeded",
-        "leg a: the producer's relayer, gas-price and consensus-parameter ports are harness stubs; view provider, executor and databases are real",
+        "leg a: the producer's gas-price and consensus-parameter ports are harness stubs; the relayer port is a harness object that reports a finalized DA height (moved by the harness between requests, within the heights present in the real relayer database) and the forced-transaction cost/count of each height; view provider, executor and databases are real",
+        "relayer progress (a later finalized DA height, further DA heights synced into the relayer database) is not a change of the chain: C45's 'same answer when repeated on an unchanged chain' is required across it; the unchanged code never consults the relayer in dry_run (it simulates on the last block's DA height)",
     ]
 }
 
@@ -188,20 +208,86 @@ impl DryRunner for DryRunExec {
     }
 }
 
-struct NoRelayer;
+/// What the producer's relayer port reports. The harness moves `finalized`
+/// between requests (within the DA heights whose events are in the real relayer
+/// database) and sometimes lets the relayer "sync" a further DA height; the
+/// chain itself does not change by that.
+#[derive(Default)]
+struct RelayerState {
+    finalized: u64,
+    /// DA height -> (gas cost of the forced transactions, number of forced transactions)
+    info: BTreeMap<u64, (u64, u64)>,
+    calls: u64,
+}
+
+#[derive(Clone, Default)]
+struct MovingRelayer(Arc<Mutex<RelayerState>>);
+
+impl MovingRelayer {
+    fn sync_info(&self, sess: &ChainSession) {
+        let mut st = self.0.lock().unwrap();
+        st.info = sess
+            .relayer_history
+            .iter()
+            .map(|(h, events)| {
+                let cost = events.iter().map(|e| e.cost()).fold(0u64, |a, b| a.saturating_add(b));
+                let txs = events.iter().filter(|e| matches!(e, RelayerEvent::Transaction(_))).count() as u64;
+                (*h, (cost, txs))
+            })
+            .collect();
+    }
+
+    fn set_finalized(&self, h: u64) {
+        self.0.lock().unwrap().finalized = h;
+    }
+
+    fn calls(&self) -> u64 {
+        self.0.lock().unwrap().calls
+    }
+}
 
 #[async_trait::async_trait]
-impl RelayerPort for NoRelayer {
+impl RelayerPort for MovingRelayer {
     async fn wait_for_at_least_height(&self, height: &DaBlockHeight) -> anyhow::Result<DaBlockHeight> {
-        Ok(*height)
+        let mut st = self.0.lock().unwrap();
+        st.calls += 1;
+        Ok(DaBlockHeight(st.finalized.max(height.0)))
     }
 
-    async fn get_cost_and_transactions_number_for_block(&self, _: &DaBlockHeight) -> anyhow::Result<RelayerBlockInfo> {
-        Ok(RelayerBlockInfo {
-            gas_cost: 0,
-            tx_count: 0,
-        })
+    async fn get_cost_and_transactions_number_for_block(&self, height: &DaBlockHeight) -> anyhow::Result<RelayerBlockInfo> {
+        let mut st = self.0.lock().unwrap();
+        st.calls += 1;
+        let (gas_cost, tx_count) = st.info.get(&height.0).copied().unwrap_or((0, 0));
+        Ok(RelayerBlockInfo { gas_cost, tx_count })
     }
+}
+
+/// Let the relayer sync one more DA height (0-2 message events) into the real
+/// relayer database. The chain (on-chain database) is not touched.
+fn relayer_syncs_one_more_height(sess: &mut ChainSession, rng: &mut StdRng) {
+    let h = sess.relayer_tip + 1;
+    let n = *pick(rng, &[0usize, 1, 1, 2]);
+    let events: Vec<RelayerEvent> = (0..n)
+        .map(|_| {
+            let mut nonce = [0u8; 32];
+            rng.fill(&mut nonce);
+            nonce[0] = 0xDB;
+            let recipient = sess.owners[rng.gen_range(0..sess.owners.len())].address;
+            RelayerEvent::Message(Message::V1(MessageV1 {
+                sender: Address::new(rng.r#gen()),
+                recipient,
+                nonce: Nonce::new(nonce),
+                amount: rng.gen_range(1_000_000_000u64..9_000_000_000),
+                data: if chance(rng, 50) { vec![] } else { vec![7, 7, 7] },
+                da_height: DaBlockHeight(h),
+            }))
+        })
+        .collect();
+    sess.push_da_height(events);
+}
+
+fn on_chain_part(d: &Dump) -> Vec<(&(u32, Vec<u8>), &Vec<u8>)> {
+    d.iter().filter(|((c, _), _)| *c < TAG_RELAYER).collect()
 }
 
 struct StaticPrice(u64);
@@ -303,8 +389,8 @@ impl Req {
 
 fn gen_options(rng: &mut StdRng, plan: &BlockPlan, latest: u32, history: bool) -> Req {
     let (height, height_kind) = match rng.gen_range(0..100) {
-        0..=44 => (None, "latest"),
-        45..=59 => (Some(latest + 1), "next"),
+        0..=34 => (None, "latest"),
+        35..=59 => (Some(latest + 1), "next"),
         60..=94 if history && latest >= 1 => (Some(rng.gen_range(1..=latest)), "past"),
         60..=94 => (None, "latest"),
         _ => (Some(latest + 2 + rng.gen_range(0..3)), "future"),
@@ -422,13 +508,14 @@ fn run_session(ctx: &Ctx, args: &Args, case: &Case, rng: &mut StdRng, blocks: u3
         }
     };
     report.count(if history { "c45.a.sessions.rocksdb_history" } else { "c45.a.sessions.in_memory" });
+    let moving_relayer = MovingRelayer::default();
     let provider_price = *pick(rng, &[0u64, 1, 2]);
     let producer: RealProducer = Producer {
         config: Default::default(),
         view_provider: sess.on_chain.clone(),
         txpool: (),
         executor: Arc::new(DryRunExec(exec.clone())),
-        relayer: Box::new(NoRelayer),
+        relayer: Box::new(moving_relayer.clone()),
         lock: Default::default(),
         gas_price_provider: StaticPrice(provider_price),
         chain_state_info_provider: ParamsFromDb(sess.on_chain.clone()),
@@ -453,7 +540,8 @@ fn run_session(ctx: &Ctx, args: &Args, case: &Case, rng: &mut StdRng, blocks: u3
                 break;
             }
         };
-        let before = dump_session(&sess);
+        let mut before = dump_session(&sess);
+        moving_relayer.sync_info(&sess);
         let mut ops_log: Vec<Value> = Vec::new();
         let mut reqs = gen_requests(rng, &plan, latest, history);
         // bound the work per block
@@ -471,7 +559,35 @@ fn run_session(ctx: &Ctx, args: &Args, case: &Case, rng: &mut StdRng, blocks: u3
                     req.record,
                 ))
             };
-            let (a1, a2) = match (catch(call), catch(call)) {
+            // the relayer as seen through the producer's port: somewhere between the chain's DA
+            // height and the last DA height whose events are in the relayer database
+            let f1 = if chance(rng, 50) { sess.da_height } else { rng.gen_range(sess.da_height..=sess.relayer_tip) };
+            moving_relayer.set_finalized(f1);
+            let a1 = catch(call);
+            // ... and between the two identical requests the relayer makes progress (the chain does not)
+            let mut f2 = f1;
+            let mut relayer_move = "unchanged";
+            if chance(rng, 70) {
+                if f1 == sess.relayer_tip || chance(rng, 25) {
+                    relayer_syncs_one_more_height(&mut sess, rng);
+                    moving_relayer.sync_info(&sess);
+                    let rebased = dump_session(&sess);
+                    if on_chain_part(&rebased) != on_chain_part(&before) {
+                        // a dry run that changed the chain is reported below from `after`; here only
+                        // the harness's own relayer write may have happened
+                        report.count("c45.a.on_chain_changed_before_relayer_sync");
+                    } else {
+                        before = rebased;
+                    }
+                    relayer_move = "synced_new_da_height_and_finalized_advanced";
+                } else {
+                    relayer_move = "finalized_advanced";
+                }
+                f2 = if chance(rng, 50) { sess.relayer_tip } else { rng.gen_range(f1 + 1..=sess.relayer_tip) };
+                moving_relayer.set_finalized(f2);
+            }
+            let a2 = catch(call);
+            let (a1, a2) = match (a1, a2) {
                 (Ok(a), Ok(b)) => (a, b),
                 (Err(p), _) | (_, Err(p)) => {
                     report.inconclusive(format!("panic inside Producer::dry_run: {p}; request {}", req.json(&plan)));
@@ -479,10 +595,21 @@ fn run_session(ctx: &Ctx, args: &Args, case: &Case, rng: &mut StdRng, blocks: u3
                     continue;
                 }
             };
+            // what lies between the chain's DA height and the relayer's second position
+            let pending: Vec<&RelayerEvent> = ((sess.da_height + 1)..=f2).flat_map(|h| sess.relayer_events(h).iter()).collect();
+            let pending_forced = pending.iter().any(|e| matches!(e, RelayerEvent::Transaction(_)));
+            // ... and between the relayer's two positions (what a DA-height-following header would add)
+            let forced_between = ((f1 + 1)..=f2)
+                .flat_map(|h| sess.relayer_events(h).iter())
+                .any(|e| matches!(e, RelayerEvent::Transaction(_)));
             let (d1, class, n_reads) = answer_of(&a1);
             let (mut d2, _, _) = answer_of(&a2);
             if ctx.st(2) {
                 d2.push('x');
+            }
+            if ctx.st(6) && req.height_kind == "next" && f2 != f1 {
+                // a wrapper whose answer depends on the relayer's position
+                d2.push_str(&format!(" da<={}", f2 - f1));
             }
             let mut after = dump_session(&sess);
             if ctx.st(1) {
@@ -491,8 +618,11 @@ fn run_session(ctx: &Ctx, args: &Args, case: &Case, rng: &mut StdRng, blocks: u3
                 }
             }
             report.eval();
-            ops_log.push(req.json(&plan));
-            let replay = || case.replay(plan.height, json!({"requests": ops_log, "failing": req.json(&plan)}));
+            let mut rj = req.json(&plan);
+            rj["relayer"] = json!({"chain_da_height": sess.da_height, "finalized_at_first_request": f1, "finalized_at_second_request": f2,
+                "move": relayer_move, "pending_events": pending.len(), "pending_forced_tx": pending_forced});
+            ops_log.push(rj.clone());
+            let replay = || case.replay(plan.height, json!({"requests": ops_log, "failing": rj}));
 
             // ---- oracle
             if let Some((cols, lines)) = diff_dumps(&before, &after) {
@@ -504,11 +634,38 @@ fn run_session(ctx: &Ctx, args: &Args, case: &Case, rng: &mut StdRng, blocks: u3
                 break 'blocks;
             }
             if d1 != d2 {
-                ctx.violation(
-                    &format!("a: dry_run_not_repeatable answer={class}"),
-                    format!("the same Producer::dry_run({}) on an unchanged chain answered `{d1}` and then `{d2}`", req.json(&plan)),
-                    replay(),
-                );
+                if f2 != f1 {
+                    ctx.violation(
+                        &format!("a: dry_run_answer_depends_on_relayer_progress height={}", req.height_kind),
+                        format!(
+                            "the same Producer::dry_run({}) on an unchanged chain (DA height {}) answered `{d1}` while the relayer was at DA height {f1} and `{d2}` after it had moved to {f2} ({relayer_move}; {} relayer events, forced transactions: {pending_forced}, between the chain's DA height and {f2})",
+                            req.json(&plan),
+                            sess.da_height,
+                            pending.len()
+                        ),
+                        replay(),
+                    );
+                } else {
+                    ctx.violation(
+                        &format!("a: dry_run_not_repeatable answer={class}"),
+                        format!("the same Producer::dry_run({}) on an unchanged chain answered `{d1}` and then `{d2}`", req.json(&plan)),
+                        replay(),
+                    );
+                }
+            }
+            let moved = if f2 != f1 { "relayer_advanced" } else { "relayer_unchanged" };
+            report.count(&format!("c45.a.repeat.{moved}.{}", req.height_kind));
+            if f2 != f1 {
+                report.count(&format!("c45.a.repeat.relayer_advanced.move.{relayer_move}"));
+                if !pending.is_empty() {
+                    report.count(&format!("c45.a.repeat.relayer_advanced.{}.pending_events", req.height_kind));
+                }
+                if pending_forced {
+                    report.count(&format!("c45.a.repeat.relayer_advanced.{}.pending_forced_tx", req.height_kind));
+                }
+                if forced_between {
+                    report.count(&format!("c45.a.repeat.relayer_advanced.{}.forced_tx_between_positions", req.height_kind));
+                }
             }
 
             // ---- evidence
@@ -612,6 +769,7 @@ fn run_session(ctx: &Ctx, args: &Args, case: &Case, rng: &mut StdRng, blocks: u3
         }
         report.count("c45.a.blocks");
     }
+    report.add("c45.a.relayer_port_calls_during_dry_runs", moving_relayer.calls());
     drop(producer);
     drop(exec);
     drop(sess);
@@ -1084,7 +1242,15 @@ pub fn run(args: &Args, report: &Report) -> (&'static str, bool, Vec<&'static st
             ("c45.a.height.past.success", 150),
             ("c45.a.height.past.reverted", 60),
             ("c45.a.height.past.error", 200),
-            ("c45.a.height.next.success", 200),
+            ("c45.a.height.next.success", 300),
+            ("c45.a.repeat.relayer_advanced.next", 800),
+            ("c45.a.repeat.relayer_advanced.next.pending_events", 500),
+            ("c45.a.repeat.relayer_advanced.next.pending_forced_tx", 200),
+            ("c45.a.repeat.relayer_advanced.next.forced_tx_between_positions", 100),
+            ("c45.a.repeat.relayer_advanced.latest.forced_tx_between_positions", 200),
+            ("c45.a.repeat.relayer_advanced.latest", 1000),
+            ("c45.a.repeat.relayer_advanced.past", 300),
+            ("c45.a.repeat.relayer_unchanged.next", 250),
             ("c45.a.utxo_validation.off", 1000),
             ("c45.a.utxo_validation.on", 1000),
             ("c45.a.record_storage_reads.nonempty", 700),
